@@ -46,6 +46,11 @@ def build(e):
 
 WITH_MESSAGE = False  # lines prefixed 'MSG ': a DomainError / CoordinateMissing outcome also carries the exception's text
 FLOAT_N = False      # lines prefixed 'NF ': the integer parameter n is passed as an integral float (3.0)
+VAR_AS_OBJECT = False  # lines prefixed 'VO ': the differentiation variable is passed as a Variable object, not as a name
+
+
+def var_arg(v):
+    return X.Variable(sx.name_of(v)) if VAR_AS_OBJECT else sx.name_of(v)
 
 
 def from_obj(o):
@@ -190,6 +195,30 @@ def struct_float(rg):
 FOREIGN = [None, 0, 1, 1.5, 'x', (1, 2), [3], {'a': 1}, object(), True, b'x', float('nan')]
 
 
+def impersonators(o):
+    """foreign objects that merely LOOK like o: a class of the same name (as ast.Add, sympy.Add or a user's own node class
+    would be) without attributes, and one carrying a copy of o's attributes; neither is o's constructor"""
+    out = []
+    for fill in (False, True):
+        cls = type(type(o).__name__, (object,), {'__module__': type(o).__module__, '__qualname__': type(o).__qualname__})
+        z = cls()
+        if fill:
+            try:
+                z.__dict__.update(vars(o))
+            except TypeError:
+                continue
+        out.append(z)
+    return out
+
+
+def foreign_like(o):
+    """None when o behaves towards its impersonators as towards any foreign object, else a description"""
+    for z in impersonators(o):
+        if (o == z) is not False or (z == o) is not False or (o != z) is not True:
+            return 'a foreign object of a class named %s%s' % (type(o).__name__, ' with the same attributes' if vars(z) else '')
+    return None
+
+
 def walk_objects(o):
     out, stack, seen = [], [o], set()
     while stack:
@@ -233,6 +262,10 @@ def eq_laws(oa, ob, oc, oa2):
         for z in FOREIGN:
             if (oa == z) is not False or (z == oa) is not False or (oa != z) is not True:
                 return 'bad: comparison with foreign object %r' % (z,)
+        for sub in walk_objects(oa)[:12]:
+            w = foreign_like(sub)
+            if w:
+                return 'bad: comparison with %s' % w
         # derivative objects
         p1, p2 = Partial(oa, 'v2'), Partial(ob, 'v2')
         if (p1 == p2) != ab or (p2 == p1) != ab:
@@ -264,6 +297,10 @@ def eq_laws(oa, ob, oc, oa2):
         for z in FOREIGN:
             if (p1 == z) is not False or (d1 == z) is not False:
                 return 'bad: derivative object compared with foreign object %r' % (z,)
+        for o_ in (p1, d1, early_p, early_d):
+            w = foreign_like(o_) if o_ is not None else None
+            if w:
+                return 'bad: derivative object compared with %s' % w
         if len(oa._variable_names) <= 1 and len(ob._variable_names) <= 1:
             v1, v2 = Derivative(oa), Derivative(ob)
             if (v1 == v2) != ab or (ab and hash(v1) != hash(v2)) or v1 == p1 or v1 == d1:
@@ -285,6 +322,9 @@ def eq_laws(oa, ob, oc, oa2):
                 pass
             if (l1 == None) is not False:  # noqa: E711
                 return 'bad: LocatedDifferential == None'
+            w = foreign_like(l1)
+            if w:
+                return 'bad: LocatedDifferential compared with %s' % w
     except Exception as ex:  # noqa: BLE001
         return 'bad: comparison raised %s' % type(ex).__name__
     return 'ok'
@@ -309,6 +349,9 @@ def point_laws(p, q):
         for z in FOREIGN:
             if (a == z) is not False or (z == a) is not False:
                 return 'bad: point compared with foreign object %r' % (z,)
+        w = foreign_like(a)
+        if w:
+            return 'bad: point compared with %s' % w
     except Exception as ex:  # noqa: BLE001
         return 'bad: raised %s' % type(ex).__name__
     return 'ok'
@@ -587,7 +630,7 @@ def run_line(line):
         p, k = sx.parse_point(ts, 2)
         e, _ = sx.parse_expr(ts, k)
         o = build(e)
-        return outcome(lambda: Partial(o, sx.name_of(v)).at(mkpoint(p)))
+        return outcome(lambda: Partial(o, var_arg(v)).at(mkpoint(p)))
     if cmd == 'REV':
         p, k = sx.parse_point(ts, 1)
         e, _ = sx.parse_expr(ts, k)
@@ -654,7 +697,7 @@ def run_line(line):
         v = int(ts[1])
         e, _ = sx.parse_expr(ts, 2)
         o = build(e)
-        r, warned = as_expr_checked(lambda: Partial(o, sx.name_of(v)).as_expression())
+        r, warned = as_expr_checked(lambda: Partial(o, var_arg(v)).as_expression())
         return ('WARN ' if warned else '') + show_obj(r)
     if cmd == 'PEARLY':
         v = int(ts[1])
@@ -662,14 +705,14 @@ def run_line(line):
         e, _ = sx.parse_expr(ts, k)
         o = build(e)
         CATCH.hit = False
-        res = outcome(lambda: Partial(o, sx.name_of(v), compute_early=True).at(mkpoint(p)))
+        res = outcome(lambda: Partial(o, var_arg(v), compute_early=True).at(mkpoint(p)))
         return ('WARN ' if CATCH.hit else '') + res
     if cmd == 'DEXPR':
         v = int(ts[1])
         e, _ = sx.parse_expr(ts, 2)
         o = build(e)
         r, warned = as_expr_checked(
-            lambda: Differential(o, compute_early=True).component(sx.name_of(v)).as_expression())
+            lambda: Differential(o, compute_early=True).component(var_arg(v)).as_expression())
         return ('WARN ' if warned else '') + show_obj(r)
     if cmd == 'DEARLYAT':
         v = int(ts[1])
@@ -677,7 +720,7 @@ def run_line(line):
         e, _ = sx.parse_expr(ts, k)
         o = build(e)
         CATCH.hit = False
-        res = outcome(lambda: Differential(o, compute_early=True).component_at(sx.name_of(v), mkpoint(p)))
+        res = outcome(lambda: Differential(o, compute_early=True).component_at(var_arg(v), mkpoint(p)))
         return ('WARN ' if CATCH.hit else '') + res
     if cmd == 'DEARLYALL':
         p, k = sx.parse_point(ts, 1)
@@ -1158,9 +1201,13 @@ def bad_param(line):
 
 
 def run_line(line):   # noqa: F811
-    global FLOAT_N, WITH_MESSAGE
+    global FLOAT_N, WITH_MESSAGE, VAR_AS_OBJECT
     FLOAT_N = False
     WITH_MESSAGE = False
+    VAR_AS_OBJECT = False
+    if line.startswith('VO '):
+        VAR_AS_OBJECT = True
+        line = line[3:]
     if line.startswith('MSG '):
         WITH_MESSAGE = True
         line = line[4:]
